@@ -80,7 +80,7 @@ def probes(rng, m: ts.Model, g: gen.ProgGen) -> list[dict]:
     if dm_slm:
         out.append({"op": "config_slm_mask", "qubits": [g.qids[0]], "dmm_id": gen.pick(rng, dm_slm)})
     out.append({"op": "phase_shift", "phi": 1.0, "targets": [], "basis": gen.pick(rng, ["digital", "ground-rydberg", "XY"])})
-    out.append({"op": "set_magnetic_field", "b": [0.0, 0.0, 30.0]})
+    out.append({"op": "set_magnetic_field", "b": gen.pick(rng, [[0.0, 0.0, 30.0], [0.0, 0.0, 30.0], [0.0, 0.0, 0.0]])})
     out.append({"op": "get_duration"})
     out.append({"op": "sample"})
     out.append({"op": "estimate_added_delay", "pulse": pulse, "ch": n})
@@ -137,6 +137,13 @@ def _run_case(ctx, idx, rng, tier):
         if ev.stage != "call":
             return ok
         if ev.exc is not None and state_key(ev.pre) != state_key(ev.post):
+            fl_a, fl_b = ev.pre["flags"], ev.post["flags"]
+            if (fl_a["in_xy"], fl_a["in_ising"]) != (fl_b["in_xy"], fl_b["in_ising"]) and not ev.pre["chans"] and not ev.post["chans"]:
+                # the *mode* itself moved although the call was refused and nothing is declared: from here on the
+                # sequence accepts other operations than its documented mode says
+                ctx.violation("mode", f"{op['op']} was refused ({type(ev.exc).__name__}) but switched the mode of a sequence "
+                              f"without channels: XY {fl_a['in_xy']} -> {fl_b['in_xy']}, Ising {fl_a['in_ising']} -> "
+                              f"{fl_b['in_ising']}", f"refused-call-changed-mode:{op['op']}")
             ctx.count("discarded_after_C09")  # partial effect of a raising call: reported by C09, walk abandoned
             raise Tainted()
         if verdict == ts.REFUSE and ok:
